@@ -157,7 +157,8 @@ class Translate(BaseTranslateFilter, TranslatableFilter):
         else:
             text = translations.gettext(__left)
 
-        if auto_escape:
+        if auto_escape and self.auto_escape_message:
+            # Only what was escaped on the way in is safe on the way out.
             text = Markup(text)
 
         if self.message_interpolation:
@@ -237,7 +238,8 @@ class GetText(BaseTranslateFilter, TranslatableFilter):
         translations = self._resolve_translations(context)
         text = translations.gettext(__left)
 
-        if auto_escape:
+        if auto_escape and self.auto_escape_message:
+            # Only what was escaped on the way in is safe on the way out.
             text = Markup(text)
 
         if self.message_interpolation:
@@ -292,7 +294,8 @@ class NGetText(BaseTranslateFilter, TranslatableFilter):
         translations = self._resolve_translations(context)
         text = translations.ngettext(__left, __plural, __count)
 
-        if auto_escape:
+        if auto_escape and self.auto_escape_message:
+            # Only what was escaped on the way in is safe on the way out.
             text = Markup(text)
 
         if self.message_interpolation:
@@ -349,7 +352,8 @@ class PGetText(BaseTranslateFilter, TranslatableFilter):
         translations = self._resolve_translations(context)
         text = translations.pgettext(__message_context, __left)
 
-        if auto_escape:
+        if auto_escape and self.auto_escape_message:
+            # Only what was escaped on the way in is safe on the way out.
             text = Markup(text)
 
         if self.message_interpolation:
@@ -417,7 +421,8 @@ class NPGetText(BaseTranslateFilter, TranslatableFilter):
             __count,
         )
 
-        if auto_escape:
+        if auto_escape and self.auto_escape_message:
+            # Only what was escaped on the way in is safe on the way out.
             text = Markup(text)
 
         if self.message_interpolation:
